@@ -113,8 +113,12 @@ def main():
         for pep, why in j['bad']:
             run.violation(f'{case.key()}|hygiene:{pep}:{why[:40]}', f'{pep}: {why}', CC.case_to_replay(case))
         return j['n'] > 0
+    # max_length = (length of the N-terminal product MKTAYIAK) - 1: its M-removed form KTAYIAK sits exactly at the
+    # limit, and the I>L SNV in it yields the I/L image of a canonical peptide (pool boundary x M-removal x I/L)
+    TIGHT = E.Cfg(exception=None, misc=1, min_length=5, max_length=7)
     extra = [('D1/R1/auto', E.d1_cases('R1', 'ENST01', AUTO), dict(deviations=1, exception='auto')),
-             ('D1/R3/auto', E.d1_cases('R3', 'ENST03', AUTO), dict(deviations=1, exception='auto'))]
+             ('D1/R3/auto', E.d1_cases('R3', 'ENST03', AUTO), dict(deviations=1, exception='auto')),
+             ('D1/R1/max7', E.d1_cases('R1', 'ENST01', TIGHT, 0, 60), dict(deviations=1, max_length=7, window=[0, 60]))]
     CC.run_blocks(run, 'C04', on_case, extra_blocks=extra, judge_fn=judge_hygiene)
     if not run.only or 'other' in run.only:
         other_commands(run)
